@@ -36,6 +36,7 @@ RULE = (
     "_async twin, with and without partials. One case in eight is an extends chain from C18's generator (nested blocks, block.super, "
     "required blocks, cycles) behind a dict, choice, file-system or caching loader. Non-trivial = both renders completed with non-empty output or a Liquid error and the template has >= 1 tag."
     " Rounds 5-6 added enumerated families: include / render with a bound variable and a same-named keyword argument; conditions with effects (block.super in if / elsif / unless / case / ternary); macro parameters named args / kwargs."
+    " Round 7 added: loop arguments given as variables of 16 value kinds."
 )
 REQUIRED = [
     ("liquid/template.py", "BoundTemplate.render_async"),
